@@ -10,18 +10,20 @@ A *kind* describes one container type under test and knows how to
   gen_op(rng, P, wild)             draw the next operation (valid and invalid arguments)
 
 Operations are tuples whose head is the constructor name of the Coq `sop` / `rop` type.
-Values:   ('PInt', z) | ('PAsn', z) | ('PBad',) | ('PBadAsn',)
+Values:   ('PInt', z) | ('PAsn', z) | ('PSub', z) (a value object of the refined type INTEGER (0..9)) | ('PBad',) | ('PBadAsn',)
 Slots:    None (noValue) | ('CVal', z) | 'CSchema'
 Outcomes: ('ORet',) ('OSlot', s) ('OSlots', [s]) ('OBool', b) ('ONat', n) ('ONats', [n])
           ('OItems', [(n, s)]) ('OBytes', bytes) ('ORaise', errclass)
 """
 from harness import coqio
-from pyasn1.type import univ, namedtype, tag, base
+from pyasn1.type import univ, namedtype, tag, base, constraint
 from pyasn1 import error
 from pyasn1.codec.der import encoder as der_encoder
 
 noValue = univ.noValue
 RET = ('ORet',)
+# SmallInt ::= INTEGER (0..9): a refined type whose values SEQUENCE OF INTEGER accepts as members
+SMALL = univ.Integer().subtype(subtypeSpec=constraint.ValueRangeConstraint(0, 9))
 
 CRASHES = [('IndexError', IndexError), ('KeyError', KeyError), ('AttributeError', AttributeError),
            ('TypeError', TypeError), ('ValueError', ValueError), ('OverflowError', OverflowError),
@@ -70,6 +72,8 @@ def c_val(v):
         return 'None'
     if v[0] in ('PInt', 'PAsn'):
         return '(%s %s)' % (v[0], coqio.cZ(v[1]))
+    if v[0] == 'PSub':
+        return '(PAsn %s)' % coqio.cZ(v[1])
     return v[0]
 
 
@@ -223,7 +227,7 @@ class SeqOfKind(object):
     def val(self, v):
         if v is None:
             return noValue
-        return {'PInt': lambda: v[1], 'PAsn': lambda: univ.Integer(v[1]), 'PBad': lambda: 'x',
+        return {'PInt': lambda: v[1], 'PAsn': lambda: univ.Integer(v[1]), 'PSub': lambda: SMALL.clone(v[1]), 'PBad': lambda: 'x',
                 'PBadAsn': lambda: univ.OctetString('x')}[v[0]]()
 
     # -- implementation
@@ -285,6 +289,29 @@ class SeqOfKind(object):
             return obj, ('OBytes', bytes(der_encoder.encode(obj)))
         raise ValueError(op)
 
+    def post_check(self, obj, op, out, before):
+        """a bare Python value stored at a position is cast by the DECLARED component type, whatever was there before"""
+        if not self.ct or out != RET:
+            return None
+        t, a = op[0], op[1:]
+        cv = obj._componentValues
+        n = 0 if not before else max(k for k, _ in before) + 1
+        where = []
+        if t in ('SSetItem', 'SSetPos') and a[1] is not None and a[1][0] == 'PInt':
+            where = [a[0] if a[0] >= 0 else n + a[0]]
+        elif t == 'SAppend' and a[0][0] == 'PInt':
+            where = [len(before or [])]
+        elif t == 'SExtend':
+            where = [len(before or []) + j for j, v in enumerate(a[0]) if v[0] == 'PInt']
+        for k in where:
+            e = cv.get(k, noValue) if cv is not noValue else noValue
+            if e is noValue:
+                continue
+            ct = obj.componentType
+            if e.tagSet != ct.tagSet or e.subtypeSpec != ct.subtypeSpec or not e.isSameTypeWith(ct):
+                return 'the member stored by a bare assignment at position %d does not have the declared component type' % k
+        return None
+
     def snapshot(self, obj):
         cv = obj._componentValues
         if cv is noValue:
@@ -321,7 +348,7 @@ class SeqOfKind(object):
         """can the container take v at a position that is / is not occupied"""
         if v is None:
             return None
-        if v[0] == 'PAsn':
+        if v[0] in ('PAsn', 'PSub'):
             return True
         if v[0] == 'PInt':
             return True if (self.ct or existing) else False
@@ -473,6 +500,8 @@ class SeqOfKind(object):
             return rng.choice([hi + 2, hi + 5, -n - 3])
 
         def value_at(k):
+            if self.ct and rng.random() < 0.2:
+                return ('PSub', rng.randrange(10))       # a member of a refined type; later bare overwrites must not inherit it
             if rng.random() < 0.9:
                 return gv(0 <= k < n)
             return rng.choice([('PBad',), ('PBadAsn',)]) if self.ct else ('PBad',)
@@ -482,7 +511,7 @@ class SeqOfKind(object):
             if c < 0.22:
                 return ('SAppend', value_at(n))
             if c < 0.32:
-                vs = [gv() for _ in range(rng.randrange(0, 4))]
+                vs = [(('PSub', rng.randrange(10)) if self.ct and rng.random() < 0.2 else gv()) for _ in range(rng.randrange(0, 4))]
                 if rng.random() < 0.1:
                     vs.insert(rng.choice([0, 0, len(vs)]), ('PBad',))
                 return ('SExtend', vs)
@@ -1191,6 +1220,9 @@ def run_history(kind, ops, stop_at_first=False):
             failures.append(StepReport(what, cls, i, detail))
             if diverged or stop_at_first:
                 proto_live = False
+        pc = kind.post_check(obj, op, out, before) if hasattr(kind, 'post_check') else None
+        if pc and not what:
+            failures.append(StepReport('%s: %s' % (op[0], pc), None, i, {'state': snap}))
         te = kind.twin_eq(obj, snap) if hasattr(kind, 'twin_eq') else None
         if te is not None and te != ('ok', True) and not what:
             # whatever was read on the way, the object equals one holding the same members
